@@ -433,7 +433,7 @@ class BaseDocutilsDirective(tinydocutils.directives.Directive):
         option_names = set(self.options.keys())
         missing_options = self.directive_spec.required_options - option_names
         if missing_options:
-            missing_option_names = ", ".join(missing_options)
+            missing_option_names = ", ".join(sorted(missing_options))
             pluralization = "s" if len(missing_option_names) > 1 else ""
             node.append(
                 self.state.document.reporter.error(
